@@ -107,7 +107,32 @@ Qed.
 
 (* ---- one call ---------------------------------------------------------------- *)
 Definition op_valid (op : fop) : Prop :=
-  match op with Write d => Forall uvalid d | _ => True end.
+  match op with
+  | Write d => Forall uvalid d
+  | WriteLines ds => Forall (Forall uvalid) ds
+  | _ => True
+  end.
+
+Lemma write_at_end f d : rf_pos f = length (rf_data f) ->
+  write_at f d = mkRF (rf_data f ++ d) (rf_pos f + length d).
+Proof. intro E. unfold write_at. rewrite E at 1. now rewrite overwrite_end. Qed.
+
+(* writelines(ds) at the end of the data: one appending write per element *)
+Lemma ss_writelines_spec ds : forall f s,
+  SI f s -> rf_pos f = length (rf_data f) -> Forall (Forall uvalid) ds ->
+  SI (fold_left write_at ds f) (fold_left ss_write ds s) /\
+  same_cfg s (fold_left ss_write ds s) /\
+  rf_data (fold_left write_at ds f) = rf_data f ++ concat ds.
+Proof.
+  induction ds as [|d ds IH]; intros f s I E Vs; cbn [fold_left concat].
+  - rewrite app_nil_r. split; [exact I|]. split; [apply same_cfg_refl|reflexivity].
+  - inversion Vs as [|? ? V1 V2]; subst.
+    destruct (ss_write_spec f s d I E V1) as [W1 W2].
+    rewrite (write_at_end f d E).
+    destruct (IH _ _ W1) as [A [B Cc]]; [cbn; rewrite app_length; lia|exact V2|].
+    split; [exact A|]. split; [eapply same_cfg_trans; eassumption|].
+    rewrite Cc. cbn [rf_data]. now rewrite app_assoc.
+Qed.
 
 Lemma ss_step0_ref f s op :
   SI f s -> ref_pre KString f op = true -> op_valid op ->
@@ -121,12 +146,11 @@ Proof.
   assert (Mk : forall s' f', ss_chunk s' = ss_chunk s -> ss_tell s' = rf_pos f' -> rf_data f' = rf_data f ->
                  RI (rf_data f) (rf_pos f') (ss_buf s') -> SI f' s').
   { intros s' f' H1 H2 H3 H4. unfold SI. rewrite H3, H1. auto. }
-  destruct op as [d| |n|[lim|]|[|hint]| | | |off wh| | |]; cbn [ref_pre] in Pre; try discriminate.
+  destruct op as [d| |n|[lim|]|[|hint]| | | |off wh| | | |ds]; cbn [ref_pre] in Pre; try discriminate.
   - (* write *)
     cbn [ss_step0 ref_step fst snd]. apply Nat.eqb_eq in Pre.
     destruct (ss_write_spec f s d (conj V (conj Ch (conj T I))) Pre Val) as [W1 W2].
-    replace (overwrite (rf_data f) (rf_pos f) d) with (rf_data f ++ d)
-      by (rewrite Pre; symmetry; apply overwrite_end). auto.
+    rewrite (write_at_end f d Pre). auto.
   - (* write of the wrong type *)
     cbn [ss_step0 ref_step fst snd]. split; [reflexivity|].
     split; [exact (conj V (conj Ch (conj T I)))|apply same_cfg_refl].
@@ -255,6 +279,9 @@ Proof.
     destruct (ss_len s) as [s' v]. cbn [fst snd] in *. subst v.
     split; [reflexivity|]. split; [|exact G4].
     apply Mk; auto; [apply G4|congruence|now rewrite <- T].
+  - (* writelines *)
+    cbn [ss_step0 ref_step fst snd]. apply Nat.eqb_eq in Pre.
+    destruct (ss_writelines_spec ds f s (conj V (conj Ch (conj T I))) Pre Val) as [W1 [W2 _]]. auto.
 Qed.
 
 Lemma ss_step_ref f s op :
@@ -274,13 +301,26 @@ Qed.
 
 (* what a call does to the content of the reference file *)
 Lemma ref_step_data f op : ref_pre KString f op = true ->
-  rf_data (fst (ref_step f op)) = match op with Write d => rf_data f ++ d | _ => rf_data f end.
+  rf_data (fst (ref_step f op)) =
+  match op with Write d => rf_data f ++ d | WriteLines ds => rf_data f ++ concat ds | _ => rf_data f end.
 Proof.
   intro Pre.
-  destruct op as [d| |[n|]|[n|]|hint| | | |off wh| | |]; cbn [ref_step fst rf_data advance]; try reflexivity.
-  - cbn in Pre. apply Nat.eqb_eq in Pre. rewrite Pre. apply overwrite_end.
+  destruct op as [d| |[n|]|[n|]|hint| | | |off wh| | | |ds]; cbn [ref_step fst rf_data advance]; try reflexivity.
+  - cbn in Pre. apply Nat.eqb_eq in Pre. now rewrite (write_at_end f d Pre).
   - destruct (take_line (rest f)); reflexivity.
   - destruct (seek_target f off wh <? 0)%Z; reflexivity.
+  - cbn in Pre. apply Nat.eqb_eq in Pre. revert f Pre.
+    induction ds as [|d ds IH]; intros f Pre; cbn [fold_left concat]; [now rewrite app_nil_r|].
+    rewrite IH; rewrite (write_at_end f d Pre); cbn [rf_data rf_pos]; [now rewrite app_assoc|].
+    rewrite app_length. lia.
+Qed.
+
+Lemma plain_of_existsb2 ds : existsb (existsb odd_break) ds = false -> plain (concat ds).
+Proof.
+  induction ds as [|d ds IH]; cbn; intro H; [constructor|].
+  apply orb_false_iff in H as [H1 H2]. apply Forall_app. split; [|now apply IH].
+  clear -H1. induction d as [|x d IHd]; cbn in *; [constructor|].
+  apply orb_false_iff in H1 as [A B]. constructor; auto.
 Qed.
 
 Lemma plain_of_existsb d : existsb odd_break d = false -> plain d.
@@ -308,7 +348,8 @@ Proof.
     { destruct G as [[G1 G2]|G].
       - left. unfold writes_odd_break in G2. cbn [existsb] in G2. apply orb_false_iff in G2 as [G2 G3].
         split; [|exact G3]. rewrite Dt. destruct op; try exact G1.
-        apply Forall_app. split; [exact G1|now apply plain_of_existsb].
+        * apply Forall_app. split; [exact G1|now apply plain_of_existsb].
+        * apply Forall_app. split; [exact G1|now apply plain_of_existsb2].
       - right. cbn [existsb] in G. apply orb_false_iff in G. tauto. }
     rewrite (IH f' s' os S2 V2 G' R').
     destruct S2 as [_ [_ [T _]]]. rewrite T. congruence.
